@@ -422,6 +422,13 @@ PROPS = {
             "C15_nested_error_keeps_payload_only": [],
             "C15_reported_head_is_compiler_entry": [],
             "C15_error_head_resolves": [],
+            "C15_card_owns_its_instructions": [],
+            "C15_ir_stream_in_tree": [],
+            "C15_compile_trace_resolves": [],
+            "C15_call_entry_is_call_card": [],
+            "C15_error_trace_resolves": [],
+            "C15_example_call_chain": [],
+            "C15_while_jump_names_body": [],
         },
         n_quick=300, n_thorough=3000,
         gen_timeout=3000,
@@ -470,15 +477,28 @@ PROPS = {
             "Flocq binary64 (VmFloat.v) is used by the checker only",
         ],
         assumptions=[
-            "PARTIAL: error_trace_shape is proved for the VM model over arbitrary programs; that a program produced by "
-            "`compile m` has, at the address of every card-emitted instruction, the location of the emitting card is "
-            "proved per function (C15_emit_index_sound: every entry recorded while a function's cards are compiled "
-            "resolves to a card of that function, right namespace) - NOT proved: that the entry at a given address "
-            "is the one of the card that emitted that instruction (only: of a card of the function), and the lifting from "
-            "one function to `compile m` (flatten_module: namespace / function index of the IR stream vs. the module "
-            "tree); both are checked on every generated case (exact trace comparison, trace_resolves_of)",
-            "that each frame source other than 0 / label positions is the CallFunction of a Call / DynamicCall card is "
-            "checked (oracle), not proved",
+            "C15_error_trace_resolves joins the run-time shape theorem with the compiler model: for compile M o = COk B "
+            "(below 2^32 bytes: push_instruction records `len as u32`) trace[0] is the entry of the failing address and "
+            "resolves, in M's tree with `std` injected (namespace -> submodule by first name match, then "
+            "CardEdit.get_card), to the card whose process_card run is the INNERMOST one containing that address; "
+            "every frame whose source is a CallFunction byte resolves to the Call / DynamicCall card that emitted it, "
+            "under that card's namespace. 'Emitted by' is a ghost of the proof: a list of process_card runs (card, "
+            "index, byte range), existentially quantified, each anchored to a real execution of process_card on that "
+            "card at that index (run_ok), ranges nested or disjoint by construction; that the list contains EVERY "
+            "nested process_card call is true of the construction but not part of the statement",
+            "carve-outs kept explicit in entry_resolves: N-C15-3 (an address in no process_card run: scope-end Pop / "
+            "CloseUpvalue, ScalarNil, Return, Exit of the function epilogues; for a non-main function WITH cards the "
+            "epilogue carries the index of its last card - it resolves, but to a card that did not emit it; not a "
+            "CallFunction, so the call chain is unaffected) and N-C15-4 (NEW, reported: the GotoIfFalse / GotoIfTrue / "
+            "Goto of While, IfTrue, IfFalse, IfElse are pushed while sub-index 1 is current - compiler.rs "
+            "push_subindex(1) before encode_if_then - so a Timeout there names the body / then-branch instead of "
+            "the loop / conditional card; witness C15_while_jump_names_body; the correspondence check compares exact "
+            "traces, so the crate agrees with the model here)",
+            "frame sources: 0 (frame of Vm::run: entry of address 0, the program entry) and label positions (frames "
+            "of Vm::run_function) are listed, not resolved to call cards; that a frame source with a trace entry "
+            "and byte 11 is an instruction start follows from 'trace keys are instruction starts' (proved, addrs); "
+            "N-C15-2 is outside the statement: a nested run's error reaches the outer run as the failure of the "
+            "CallNative instruction, which is the address the theorem speaks about",
             "natives are the fixed menu of Vm.v; errors raised inside a nested run (native callbacks) surface at the "
             "native's call site (known class 12); OutOfMemory is not in the stream (no allocator in Vm.v)",
         ],
